@@ -43,6 +43,8 @@ type absInterp struct {
 	problem string
 	panics  string
 	segsOf  func(v ssa.Value) bool // v denotes the segment slice (load of the receiver)
+	depth   int                    // helpers being interpreted
+	ret     absVal                 // value of the last interpreted return
 }
 
 func classOfConst(s string) segClass {
@@ -120,6 +122,10 @@ func (ai *absInterp) run(fn *ssa.Function) bool {
 		var next *ssa.BasicBlock
 		switch t := last.(type) {
 		case *ssa.Return:
+			ai.ret = absVal{kind: "opaque"}
+			if len(t.Results) == 1 {
+				ai.ret = ai.val(t.Results[0])
+			}
 			return true
 		case *ssa.Jump:
 			next = b.Succs[0]
@@ -350,6 +356,29 @@ func (ai *absInterp) step(in ssa.Instruction) bool {
 				}
 				ai.fail("strings.HasPrefix with a prefix other than \"[\"")
 				return false
+			}
+		}
+		// a helper of the module that is handed tracked values (`needsSeparator(prev, segment)`) is
+		// interpreted in turn, its parameters bound to the abstract arguments
+		if g := ci.static; g != nil && g.Blocks != nil && inModule(funcPkgPath(g)) && ai.depth < 3 && len(g.FreeVars) == 0 && g.Signature.Results().Len() <= 1 {
+			tracked := false
+			for _, a := range x.Call.Args {
+				if av := ai.val(a); av.kind == "segs" || av.kind == "ptrseg" || av.kind == "str" {
+					tracked = true
+				}
+			}
+			if _, isCall := in.(*ssa.Call); isCall && tracked && len(g.Params) == len(x.Call.Args) {
+				for i, prm := range g.Params {
+					ai.env[prm] = ai.val(x.Call.Args[i])
+				}
+				ai.depth++
+				ok := ai.run(g)
+				ai.depth--
+				if !ok {
+					return false
+				}
+				ai.env[x] = ai.ret
+				return true
 			}
 		}
 		// any other call: its result is opaque; it must not receive the segments
